@@ -127,6 +127,11 @@ type SSEServerTransport struct {
 	// the transport is connected.
 	incoming chan jsonrpc.Message
 
+	// server, if set, is the server this transport is connected to. Its
+	// receiving methods (which include custom methods) are used to validate
+	// incoming requests; it is set by SSEHandler before Connect.
+	server *Server
+
 	// We must guard both pushes to the incoming queue and writes to the response
 	// writer, because incoming POST requests are arbitrarily concurrent and we
 	// need to ensure we don't write push to the queue, or write to the
@@ -158,7 +163,11 @@ func (t *SSEServerTransport) ServeHTTP(w http.ResponseWriter, req *http.Request)
 		return
 	}
 	if req, ok := msg.(*jsonrpc.Request); ok {
-		if _, err := checkRequest(req, serverMethodInfos); err != nil {
+		methodInfos := serverMethodInfos
+		if t.server != nil {
+			methodInfos = t.server.receivingMethodInfos()
+		}
+		if _, err := checkRequest(req, methodInfos); err != nil {
 			http.Error(w, err.Error(), http.StatusBadRequest)
 			return
 		}
@@ -278,6 +287,7 @@ func (h *SSEHandler) ServeHTTP(w http.ResponseWriter, req *http.Request) {
 		http.Error(w, "no server available", http.StatusBadRequest)
 		return
 	}
+	transport.server = server
 	ss, err := server.Connect(req.Context(), transport, nil)
 	if err != nil {
 		http.Error(w, "connection failed", http.StatusInternalServerError)
